@@ -6,7 +6,7 @@
      consume cs s       the state after the calls cs (false = next(), true = next_back())
      yields s l         plain safe iteration of s (next() until None) produces exactly the items l
      wfb false s        s is built so that every TrustIter below announces its true count (front use)
-     wfb true s         same, and s is in the class whose next_back is covered by the proof
+     wfb true s         same, and no node below is an FnMut map or a padded take (not double-ended)
      build src gs       the pipeline interpreter of the random part of the harness                *)
 From Tevec Require Import Base.Prelude Model.Iter Proofs.Iter.
 
@@ -17,21 +17,14 @@ Theorem C09_hint_exact_front :
     size_hint (consume (repeat false k) s) = (length l, Some (length l)).
 Proof. exact hint_exact_front. Qed.
 
-(* (2) ... and from any point of a consumption from either end, for the double-ended class *)
-Definition C09_hint_exact_both_ends_full_statement : Prop :=
-  forall (s : it) (cs : list bool) (l : list val),
-    wfd s -> yields (consume cs s) l ->
-    size_hint (consume cs s) = (length l, Some (length l)).
-
-Theorem C09_hint_exact_both_ends_partial :
+(* (2) ... and from any point of a consumption from EITHER end, for every state std / the library make
+       double-ended: all nodes except the FnMut map (order dependent) and the padded take (not double-ended
+       in std); next_back through Take / Skip / Zip / Enumerate (computed from len()) included *)
+Theorem C09_hint_exact_both_ends :
   forall (s : it) (cs : list bool) (l : list val),
     wfb true s -> yields (consume cs s) l ->
     size_hint (consume cs s) = (length l, Some (length l)).
 Proof. exact hint_exact_both. Qed.
-
-(* the proved class is inside the full one (what is missing: next_back through Take/Skip/Zip/Enumerate) *)
-Theorem C09_partial_class_inside_full : forall s, wfb true s -> wfd s.
-Proof. exact wfb_true_wfd. Qed.
 
 (* (3) every pipeline of the adaptor grammar, arbitrary parameters, any number of next() calls *)
 Theorem C09_hint_exact_pipeline :
@@ -163,6 +156,13 @@ Example C09_example_pipeline :
 Proof. eexists. vm_compute. auto. Qed.
 
 (* a state of the double-ended class, consumed from both ends *)
+Example C09_example_both_ends_len_based :
+  wfb true (IEnum (IZip (ITake (ITrust (IList [VZ 1; VZ 2; VZ 3; VZ 4]) 4) 3) (ISkip (IRange 0 6) 1)) 0)
+  /\ drain (consume [true; false]
+             (IEnum (IZip (ITake (ITrust (IList [VZ 1; VZ 2; VZ 3; VZ 4]) 4) 3) (ISkip (IRange 0 6) 1)) 0))
+     = [VPair (VZ 1) (VPair (VZ 2) (VZ 2))].
+Proof. vm_compute. repeat split; auto. Qed.
+
 Example C09_example_both_ends :
   wfb true (IRev (IChain true true (ITrust (IList [VZ 1; VZ 2]) 2) (ILin 5 2 0 3)))
   /\ size_hint (consume [true; false; true]
@@ -187,8 +187,7 @@ Example C09_example_shift_band :
 Proof. vm_compute. repeat split; eexists; split; reflexivity. Qed.
 
 Print Assumptions C09_hint_exact_front.
-Print Assumptions C09_hint_exact_both_ends_partial.
-Print Assumptions C09_partial_class_inside_full.
+Print Assumptions C09_hint_exact_both_ends.
 Print Assumptions C09_hint_exact_pipeline.
 Print Assumptions C09_pipeline_well_formed.
 Print Assumptions C09_step_preserves.
